@@ -15,7 +15,7 @@ from fractions import Fraction
 
 import z3
 
-MAX_TERMS = 4000
+MAX_TERMS = 3000
 
 
 class TooBig(Exception):
@@ -74,9 +74,23 @@ class Normaliser:
             return {}
         return {m: v * c for m, v in p.items()}
 
+    def atomize(self, p):
+        """name a big polynomial by one atom (keyed canonically, so equal polynomials share it)"""
+        key = ("big", self.pkey(p))
+        new = key not in self.akey
+        i = self.atom(key)
+        if new:
+            self.side.append(self.atoms[i] == self.rebuild(p))
+        return {(i,): Fraction(1)}
+
     def mul(self, p, q):
         if len(p) * len(q) > MAX_TERMS:
-            raise TooBig()
+            if len(p) > 6:
+                p = self.atomize(p)
+            if len(q) > 6 and len(p) * len(q) > MAX_TERMS:
+                q = self.atomize(q)
+            if len(p) * len(q) > 50 * MAX_TERMS:
+                raise TooBig()
         r = {}
         for m1, c1 in p.items():
             for m2, c2 in q.items():
